@@ -29,6 +29,8 @@ from magpylib._src.fields import field_BH_dipole, field_BH_sphere, field_BH_circ
 MAGNETS = ("Cuboid", "Cylinder", "CylinderSegment", "Sphere", "Tetrahedron", "TriangularMesh")
 CURRENTS = ("Circle", "Polyline")
 KINDS = MAGNETS + ("Dipole",) + CURRENTS
+# more cases where the code is most intricate (2500 lines of case distinctions)
+WEIGHT = {("CylinderSegment", "flux"): 2.5, ("CylinderSegment", "circ"): 1.5}
 # rough cost of one field evaluation (seconds per observer), used only to size budgets
 COST = {"Cuboid": 3e-6, "Cylinder": 4e-6, "CylinderSegment": 1.3e-4, "Sphere": 1e-6, "Tetrahedron": 6e-6,
         "TriangularMesh": 6e-5, "Dipole": 1e-6, "Circle": 1e-6, "Polyline": 4e-6}
@@ -675,7 +677,7 @@ def sweep(ctx, n_per_kind, n_coll, seconds, n_special=0, min_evals=2e4):
     plan = []
     for kind in KINDS:
         for law in ("flux", "circ"):
-            plan += [(law, [kind], False)] * n_per_kind
+            plan += [(law, [kind], False)] * int(round(n_per_kind * WEIGHT.get((kind, law), 1.0)))
     for _ in range(n_coll):
         k = rng.randint(2, 3)
         kinds = [rng.choice(KINDS) for _ in range(k)]
